@@ -27,6 +27,7 @@ func init() {
 			"V9 the type-less projection jsonPath applies the remaining path to every entry of a decoded object (typed map) as it does to every array element; V7c the walked side of anyOverlap is a getLogicalFileNames result on all paths. " +
 			"V5 as a path rule: every path (every iteration) through the code that registers top-level outputs and retains inserts the nil consumer, also for arguments that already have consumers. " +
 			"V10 where the keep-alive projection has the declared type, the struct-style lookup is dominated by the failed assertion of that type to *TypedMapType; V8/V9 follow thin wrappers. " +
+			"V11 getMaybeFileNames examines no raw byte other than the first; V12 its no-separator shortcut also excludes \\u escapes. " +
 			"NOT decided: whether the names found are every alias of a file, anyOverlap (file-system values).",
 		Assumptions: commonAssumptions,
 	}
@@ -75,6 +76,8 @@ func runC04(c *an.Ctx) {
 	ruleV8(c)
 	ruleV9(c)
 	ruleV10(c)
+	ruleV11(c)
+	ruleV12(c)
 	ruleV7c(c)
 }
 
